@@ -153,7 +153,7 @@ CLAIMED = {
         "DESIGN.md section 5 C16",
     ),
     "C18": (
-        "Histories of configure / reconfigure-enter / exit (normal, exceptional) / request / unknown-setting steps are "
+        "Histories of configure / reconfigure-enter / exit (normal, exceptional) / request / unknown-setting (alone or combined with new credentials) steps are "
         "chosen step by step by solver variables and enumerated exhaustively up to 5 / 6 steps against a reference stack "
         "model; a traced job carries symbolic timeout / retries through replace(), the context manager and the sender.",
         "Trusted: as C01.",
